@@ -61,6 +61,15 @@ fn operands5(ev: Ev) -> [&'static str; 4] {
     }
 }
 
+fn operands6(ev: Ev) -> [&'static str; 4] {
+    // products that nearly cancel (discriminants, cross products): inexact products, equal after rounding or not
+    match ev {
+        Ev::I64 => ["33", "3", "11", "9"],
+        Ev::Cpx => ["3.3", "3", "1.1", "9"],
+        _ => ["33.3", "3", "11.1", "9"],
+    }
+}
+
 fn operands(ev: Ev) -> [&'static str; 4] {
     match ev {
         Ev::I64 => ["2", "3", "5", "7"],
@@ -139,7 +148,8 @@ impl Space {
             1 => operands2(self.ev),
             2 => operands3(self.ev),
             3 => operands4(self.ev),
-            _ => operands5(self.ev),
+            4 => operands5(self.ev),
+            _ => operands6(self.ev),
         };
         let mut s = String::new();
         for i in 0..=self.k {
@@ -168,11 +178,16 @@ fn spaces(sub: &str, tier: Tier) -> Vec<Space> {
             _ => (3, 1),
         };
         v.push(Space { alt: 0, ev, k, ops: BinOp::for_ev(ev), decs: decorations(ev, red), groups: groupings(k) });
+        if k == 3 {
+            // three-operator chains over the cancellation set (a*b-c*d and every other operator triple), bare operands
+            v.push(Space { alt: 5, ev, k, ops: BinOp::for_ev(ev), decs: decorations(ev, 0), groups: groupings(k) });
+        }
         if k <= 2 {
             v.push(Space { alt: 1, ev, k, ops: BinOp::for_ev(ev), decs: decorations(ev, if k == 1 { 2 } else { 1 }), groups: groupings(k) });
             v.push(Space { alt: 2, ev, k, ops: BinOp::for_ev(ev), decs: decorations(ev, if k == 1 { 2 } else { 1 }), groups: groupings(k) });
             v.push(Space { alt: 3, ev, k, ops: BinOp::for_ev(ev), decs: decorations(ev, if k == 1 { 2 } else { 1 }), groups: groupings(k) });
                         v.push(Space { alt: 4, ev, k, ops: BinOp::for_ev(ev), decs: decorations(ev, if k == 1 { 2 } else { 1 }), groups: groupings(k) });
+                        v.push(Space { alt: 5, ev, k, ops: BinOp::for_ev(ev), decs: decorations(ev, if k == 1 { 2 } else { 1 }), groups: groupings(k) });
         }
     }
     v
